@@ -34,6 +34,7 @@ package l4throttle
 //@ safety C17
 //@ ensures[C17] err == nil ==> h.ReadBurstSize >= 0 && h.TotalReadBurstSize >= 0
 //@ ensures[C17] err == nil && h.totalLimiter != nil ==> burstof(h.totalLimiter) == h.TotalReadBurstSize
+//@ ensures[C17] err == nil && h.TotalReadBurstSize > 0 ==> h.totalLimiter != nil
 
 // Handle installs the throttled connection in front of the inner one (same stream) with a fresh
 // per-connection limiter of the configured burst and the handler-wide total limiter.
@@ -41,3 +42,6 @@ package l4throttle
 //@ requires cx != nil && cx.Conn != nil && cx.Context != nil && next != nil && h.logger != nil
 //@ requires[inv] h.ReadBurstSize >= 0
 //@ safety C17
+// what the next handler gets: the throttled connection, with a per-connection limiter whenever a
+// per-connection burst is configured (a configured rate gives a burst: Provision) and the shared one
+//@ atcall[C17] Handle 1 istype(cx.Conn, throttledConn) && cx.Conn.(throttledConn).totalLimiter == h.totalLimiter && (h.ReadBurstSize > 0 ==> cx.Conn.(throttledConn).localLimiter != nil && burstof(cx.Conn.(throttledConn).localLimiter) == h.ReadBurstSize)
